@@ -16,6 +16,15 @@ PROPS = {
         ],
         "technique": "Lean 4 theorems over an executable model + differential correspondence run + by-lines oracle",
     },
+    "C20": {
+        "harness": "vh-diag",
+        "gen": ["diag_table"],
+        "level_text": "T-exec: the truth table of the real is_checker_enable_by_code over all codes x {workspace enabled, workspace disabled, meta, file enabled, file disabled}, is_code_default_enable over all codes x language levels, get_default_severity and get_severity over all codes x overrides is regenerated from /repo on every run and the readable Lean decision functions are checked against every row by `decide +kernel`; the six clauses of the statement are kernel-checked theorems about those functions for all codes and all configurations; globals/globalsRegex, meta/library/std/outside placement and diagnostics.enable=false are tied by a correspondence run through diagnose_file (prediction from the all-enabled run of the same program) with an independent clause-by-clause oracle.",
+        "level_note": "Trusted: Lean kernel, the verif hook diagnostic_verif (4 one-line wrappers), harness/serialisers. Modelled: is_checker_enable_by_code, get_severity, defaults, diagnose_file gates, the configuration part of the undefined-global name filter. Not modelled: the regex engine (evaluated by the harness with the same crate), how LuaDiagnosticConfig is deserialised (exercised through real Emmyrc JSON in the correspondence run). Meta clause is partial: a meta file that enables a code itself reports it (known finding).",
+        "trusted_base": DIAG_TB + ["verif hook e3c6daf: diagnostic_verif::{checker_enabled, severity, default_enabled, default_severity} call the private functions unchanged"],
+        "assumptions": ["each checker's diagnostics for one code do not depend on which other codes are enabled (validated by the correspondence run: prediction from the all-enabled run)"],
+        "technique": "T-exec table + decide +kernel bridge + clause theorems + correspondence run",
+    },
 }
 
-HOOK_COMMITS = []
+HOOK_COMMITS = ["e3c6daf verif hook: expose the diagnostic enable/severity decision functions (feature verif)"]
